@@ -14,6 +14,31 @@ import (
 // then malformed input.  Every random choice is drawn from g.Rng.
 // ---------------------------------------------------------------------------
 
+// c15G is a generator for one pair of configured ports: every case gets the leading field "<http>/<https>".
+type c15G struct {
+	*hx.Gen
+	ports string // "<http>/<https>"
+	H, S  string // the two ports as text
+	div   int    // moved-port pairs get 1/div of the random volume
+}
+
+func (w *c15G) Case(f ...string) { w.Gen.Case(append([]string{w.ports}, f...)...) }
+func (w *c15G) scaled(n int) int { return n / w.div }
+func (w *c15G) moved() bool     { return w.div > 1 }
+
+var c15PortPairs = [][2]string{{"80", "443"}, {"8080", "8443"}, {"80", "8443"}, {"8080", "443"}}
+
+// c15AllPorts runs a per-port-pair generator for the default ports (full volume) and the moved pairs (reduced volume).
+func c15AllPorts(g *hx.Gen, gen func(w *c15G)) {
+	for i, pp := range c15PortPairs {
+		w := &c15G{Gen: g, ports: pp[0] + "/" + pp[1], H: pp[0], S: pp[1], div: 1}
+		if i > 0 {
+			w.div = 4
+		}
+		gen(w)
+	}
+}
+
 var c15Labels = []string{"example", "www", "a", "sub-1", "xn--bcher-kva", "b_c", "localhost", "local", "test", "127", "10", "0"}
 
 // suffixes: the internal-only ones, near misses of them, and public ones
@@ -272,11 +297,13 @@ var c15HostReps = []string{"", "example.com", "sub.example.com", "*.example.com"
 var c15BindReps = []string{"", "203.0.113.7", "0.0.0.0", "::", "127.0.0.1", "127.0.0.53", "::1", "[::1]", "0:0:0:0:0:0:0:1", "::ffff:127.0.0.1", "10.0.0.1", "172.31.0.1", "192.168.0.1",
 	"fd00::1", "[fd00::1]", "::ffff:10.0.0.1", "localhost", "LOCALHOST", "a.localhost", "printer.local", "Printer.LOCAL", "example.com", "127.example.com", "x.home.arpa", "localhost:80", "10.0.0.1:80"}
 
-func c15QualifyGen(g *hx.Gen) {
+func c15QualifyGen(g *hx.Gen) { c15AllPorts(g, c15QualifyGenFor) }
+
+func c15QualifyGenFor(g *c15G) {
 	bits := []string{"0001", "1001", "0101", "1101", "0011", "1011", "0111", "1111", "0000", "1000", "0100"}
 	emails := []string{"", "off", "admin@example.com", "OFF", "off ", "self_signed"}
 	schemes := []string{"", "http", "https", "HTTP", "ftp"}
-	ports := []string{"", "80", "443", "8080", "080", "2015"}
+	ports := []string{"", "80", "443", "8080", "8443", "080", "2015", g.H, g.S}
 	// host class x bind class, defaults otherwise
 	for _, h := range c15HostReps {
 		for _, l := range c15BindReps {
@@ -301,9 +328,9 @@ func c15QualifyGen(g *hx.Gen) {
 			}
 		}
 	}
-	N := 12000
+	N := g.scaled(12000)
 	if g.Thorough() {
-		N = 300000
+		N = g.scaled(300000)
 	}
 	for i := 0; i < N; i++ {
 		r := g.Rng
@@ -353,9 +380,11 @@ func c15ComposeAddr(scheme, host, port, path string) string {
 	return s + path
 }
 
-func c15AddrGen(g *hx.Gen) {
+func c15AddrGen(g *hx.Gen) { c15AllPorts(g, c15AddrGenFor) }
+
+func c15AddrGenFor(g *c15G) {
 	schemes := []string{"", "http", "https", "HTTP", "Https", "ftp", "h2c"}
-	ports := []string{"-", "", "80", "443", "8080", "http", "https", "0", "65536", "abc", "https1", "http2", "080"}
+	ports := []string{"-", "", "80", "443", "8080", "8443", "http", "https", "0", "65536", "abc", "https1", "http2", "080", g.H, g.S}
 	paths := []string{"", "/", "/Foo", "/a//b", "//x", "/a:b", "/a/b/"}
 	for _, s := range schemes {
 		for _, h := range c15AddrHosts {
@@ -374,9 +403,9 @@ func c15AddrGen(g *hx.Gen) {
 		"a#b", "a?b", "a%41", "user@host", "a b", "\x7f", "é.com"} {
 		g.Case(c15Q(a))
 	}
-	N := 12000
+	N := g.scaled(12000)
 	if g.Thorough() {
-		N = 300000
+		N = g.scaled(300000)
 	}
 	const alpha = "abcXYZ019.:/[]*-_~!$&'()+,;=<>\"\\^`{|}"
 	for i := 0; i < N; i++ {
@@ -442,9 +471,11 @@ var c15SiteHosts = []string{"example.com", "*.example.com", "203.0.113.7", "[200
 
 var c15SiteBinds = []string{"", "127.0.0.1", "::1", "10.0.0.1", "203.0.113.7", "0.0.0.0", "localhost", "::ffff:127.0.0.1", "LOCALHOST"}
 
-func c15SitesGen(g *hx.Gen) {
+func c15SitesGen(g *hx.Gen) { c15AllPorts(g, c15SitesGenFor) }
+
+func c15SitesGenFor(g *c15G) {
 	schemes := []string{"", "http", "https"}
-	ports := []string{"", "80", "443", "8080"}
+	ports := []string{"", "80", "443", "8080", "8443"}
 	// 1 site: scheme x host class x port x tls variant (x bind for the default tls); one odd scheme too
 	for _, s := range []string{"", "http", "https", "ftp"} {
 		for _, h := range c15SiteHosts {
@@ -476,8 +507,8 @@ func c15SitesGen(g *hx.Gen) {
 	}
 	var atoms []string
 	for _, s := range schemes {
-		for _, p := range []string{"", "80", "443", "5000"} {
-			if (s == "http" && p == "443") || (s == "https" && p == "80") {
+		for _, p := range []string{"", g.H, g.S, "5000"} {
+			if (s == "http" && p == g.S) || (s == "https" && p == g.H) {
 				continue
 			}
 			for _, v := range pairTLS {
@@ -487,12 +518,15 @@ func c15SitesGen(g *hx.Gen) {
 	}
 	for _, a := range atoms {
 		for _, b := range atoms {
+			if g.moved() && !g.Thorough() && g.Rng.Intn(3) != 0 {
+				continue
+			}
 			g.Case(a + ";" + b)
 		}
 	}
 	// 3 sites: ports x (tls that matter for redirects), same host and one foreign host
 	triTLS := []string{"none", "self", "block+nr"}
-	triPorts := []string{"", "80", "443", "5000", "5001"}
+	triPorts := []string{"", g.H, g.S, "5000", "5001"}
 	var tri []string
 	for _, p := range triPorts {
 		for _, v := range triTLS {
@@ -503,7 +537,7 @@ func c15SitesGen(g *hx.Gen) {
 	for _, a := range tri {
 		for _, b := range tri {
 			for _, c := range tri {
-				if !g.Thorough() && g.Rng.Intn(3) != 0 {
+				if !g.Thorough() && g.Rng.Intn(3) != 0 || g.moved() && g.Rng.Intn(3) != 0 {
 					continue
 				}
 				g.Case(a + ";" + b + ";" + c)
@@ -514,13 +548,13 @@ func c15SitesGen(g *hx.Gen) {
 	for _, v := range c15TLSVariants {
 		g.Case(c15Q("example.com") + "," + c15Q("http://example.com") + "||" + v)
 		g.Case(c15Q("http://example.com") + "," + c15Q("https://example.com") + "||" + v)
-		g.Case(c15Q("example.com:80") + "," + c15Q("example.com:443") + "," + c15Q("example.com:8443") + "||" + v)
+		g.Case(c15Q("example.com:"+g.H) + "," + c15Q("example.com:"+g.S) + "," + c15Q("example.com:9443") + "||" + v)
 		g.Case(c15Q("http://a.example.com") + "," + c15Q("b.example.com") + "||" + v + ";" + c15Q("a.example.com") + "||none")
 	}
 	// seeded random: 1..5 sites over a small host pool, everything random
-	N := 8000
+	N := g.scaled(8000)
 	if g.Thorough() {
-		N = 150000
+		N = g.scaled(150000)
 	}
 	for i := 0; i < N; i++ {
 		r := g.Rng
@@ -534,8 +568,8 @@ func c15SitesGen(g *hx.Gen) {
 			}
 			var keys []string
 			for ; k > 0; k-- {
-				a := c15SiteAtom{hx.Pick(r, schemes), hx.Pick(r, pool), hx.Pick(r, []string{"", "", "80", "443", "5000", "5001", "8080", "http", "https"})}
-				if a.scheme == "http" && (a.port == "443" || a.port == "https") || a.scheme == "https" && (a.port == "80" || a.port == "http") {
+				a := c15SiteAtom{hx.Pick(r, schemes), hx.Pick(r, pool), hx.Pick(r, []string{"", "", "80", "443", "5000", "5001", "8080", "8443", "http", "https"})}
+				if a.scheme == "http" && (a.port == g.S || a.port == "https") || a.scheme == "https" && (a.port == g.H || a.port == "http") {
 					a.port = ""
 				}
 				if a.host == "" && a.port == "" {
@@ -632,7 +666,7 @@ func c15InspectGen(g *hx.Gen) {
 // ---- c15.activate ----
 
 // the same site sets as c15.sites (the generator is deterministic in the seed of its own stream)
-func c15ActivateGen(g *hx.Gen) { c15SitesGen(g) }
+func c15ActivateGen(g *hx.Gen) { c15AllPorts(g, c15SitesGenFor) }
 
 // ---- c15.redirect ----
 
@@ -642,18 +676,23 @@ var c15HostHeaders = []string{"example.com", "example.com:80", "EXAMPLE.com", "e
 var c15Targets = []string{"/", "/a/b", "/a/b/", "/a?x=1", "/a?", "/a??", "/a?x=1?y=2", "/?", "/%41", "/%zz", "/%4", "/%", "/a%2Fb", "/a%2fb?x=%zz", "/a b", "/x\"y", "/é", "/%C3%A9", "*", "//double", "//host/path", "/a#frag",
 	"/[x]", "/a;b=c,d", "/\x01", "/a\x7f", "/!$&'()*+,;=:@", "/<>", "/{}|\\^`", "/a%20b", "/~user/-_.", "", "a", "http://other.test/abs?z", "other.test:443", "/?a=b&c=d", "/p?q=%zz", "/p?q=é", "/.", "/..", "/a/../b"}
 
-func c15RedirectGen(g *hx.Gen) {
+func c15RedirectGen(g *hx.Gen) { c15AllPorts(g, c15RedirectGenFor) }
+
+func c15RedirectGenFor(g *c15G) {
 	ports := []string{"", "443", "80", "8080", "8443", "65535", "0443"}
 	for _, p := range ports {
 		for _, h := range c15HostHeaders {
 			for _, t := range c15Targets {
+				if g.moved() && g.Rng.Intn(4) != 0 {
+					continue
+				}
 				g.Case(c15Q(p), c15Q(h), c15Q(t))
 			}
 		}
 	}
-	N := 12000
+	N := g.scaled(12000)
 	if g.Thorough() {
-		N = 300000
+		N = g.scaled(300000)
 	}
 	const alpha = "abcXYZ019/%?#;=&+:@!$'()*,[]<>\"{}|\\^`~-_. \xc3\xa9\x01\x7f"
 	for i := 0; i < N; i++ {
